@@ -4,10 +4,11 @@ use java_string::{JavaStr, JavaString};
 use duke::tree::annotation::{Annotation, ElementValue, ElementValuePair};
 use duke::tree::class::{ClassFile, ClassName, ClassSignature, EnclosingMethod, InnerClass, ObjClassName, ObjClassNameSlice};
 use duke::tree::descriptor::{ParsedFieldDescriptor, Type};
-use duke::tree::field::{Field, FieldDescriptor, FieldNameSlice, FieldRef, FieldSignature};
+use duke::tree::field::{Field, FieldDescriptor, FieldName, FieldNameSlice, FieldRef, FieldSignature};
 use duke::tree::method::{Method, MethodDescriptor, MethodNameAndDesc, MethodParameter, MethodRef, MethodSignature};
 use duke::tree::method::code::{Code, ConstantDynamic, Exception, Handle, Instruction, InstructionListEntry, InvokeDynamic, Loadable, Lv};
 use duke::tree::module::{Module, ModuleProvides};
+use duke::tree::record::{RecordComponent, RecordName};
 use duke::tree::type_annotation::TypeAnnotation;
 use duke::visitor::method::code::{StackMapData, VerificationTypeInfo};
 use quill::remapper::BRemapper;
@@ -166,7 +167,7 @@ impl Mappable for ClassFile {
 			nest_members: self.nest_members.remap(remapper)?,
 			permitted_subclasses: self.permitted_subclasses.remap(remapper)?,
 
-			record_components: Vec::new(), // TODO (takes in self.name as well)
+			record_components: self.record_components.remap_with_class_name(remapper, &self.name)?,
 
 			attributes: self.attributes,
 		})
@@ -283,6 +284,27 @@ impl MappableWithClassName for Method {
 
 			annotation_default: self.annotation_default.remap(remapper)?,
 			method_parameters: self.method_parameters.remap(remapper)?,
+
+			attributes: self.attributes,
+		})
+	}
+}
+
+impl MappableWithClassName for RecordComponent {
+	fn remap_with_class_name(self, remapper: &impl BRemapper, this_class: &ObjClassName) -> Result<Self> {
+		// a record component is the field of that name and descriptor of the record class
+		let field_name = FieldName::try_from(self.name.into_inner())?;
+		let name_and_desc = remapper.map_field(this_class, &field_name, &self.descriptor)?;
+		Ok(RecordComponent {
+			name: RecordName::try_from(name_and_desc.name.into_inner())?,
+			descriptor: name_and_desc.desc,
+
+			signature: self.signature.remap(remapper)?,
+
+			runtime_visible_annotations: self.runtime_visible_annotations.remap(remapper)?,
+			runtime_invisible_annotations: self.runtime_invisible_annotations.remap(remapper)?,
+			runtime_visible_type_annotations: self.runtime_visible_type_annotations.remap(remapper)?,
+			runtime_invisible_type_annotations: self.runtime_invisible_type_annotations.remap(remapper)?,
 
 			attributes: self.attributes,
 		})
